@@ -567,4 +567,525 @@ theorem loopTrace_exit_exists (w : Nat → List Bool → List Bool → Rat) (ini
       · exact hhere v h
       · exact ih p e s' hsk' v h
 
+/-! ### the link relation is symmetric -/
+
+theorem indexOfVar_unique {o : Op} {v r1 r2 : Nat} (h1 : o.indexOfVar v = some r1)
+    (h2 : o.indexOfVar v = some r2) : r1 = r2 := by
+  rw [h1] at h2; injection h2
+
+/-- **Links are symmetric.** If the leg `ex` (relative variable in range, distinct variables) of
+the op at `pos` is linked to `(p', e')`, then `e'` of the op at `p'` is linked back to
+`(pos, ex)`. `op`, `o2` only supply the variables of the ops at the two positions. -/
+theorem partnerOf_symm {slots : Slots} {pos : Nat} {op op' : Op} {ex : Leg} {p' : Nat} {e' : Leg}
+    (hop : slots[pos]? = some (some op)) (hv : op'.vars = op.vars) (hn : op.vars.Nodup)
+    (hr : ex.rel < op.vars.length)
+    (h : partnerOf slots pos op' ex = some (p', e')) :
+    ∃ o2, slots[p']? = some (some o2) ∧ e'.rel < o2.vars.length ∧ e'.out = !ex.out ∧
+      ∀ o2' : Op, o2'.vars = o2.vars → partnerOf slots p' o2' e' = some (pos, ex) := by
+  obtain ⟨r, b⟩ := ex
+  simp only at hr
+  have hvv : op'.vars.getD r 0 = op.vars[r] := by
+    rw [hv]; simp [List.getD, List.getElem?_eq_getElem hr]
+  have htouch : op.vars[r] ∈ op.vars := List.getElem_mem hr
+  have hidx := indexOfVar_getElem hn r hr
+  have hl : pos < slots.length := (List.getElem?_eq_some_iff.mp hop).1
+  unfold partnerOf at h
+  cases b with
+  | true =>
+    simp only [moveOn, if_true, hvv] at h
+    split at h
+    · -- forward inner link
+      rename_i q hq
+      simp only [Option.map_some, Option.some.injEq, Prod.mk.injEq] at h
+      obtain ⟨e1, e2⟩ := h
+      obtain ⟨hlt, ⟨o2, ho2, hi2⟩, hfree⟩ := nextForVar_some hq
+      obtain ⟨hr2, hv2⟩ := indexOfVar_some hi2
+      subst e1; subst e2
+      refine ⟨o2, ho2, hr2, rfl, fun o2' hv2' => ?_⟩
+      have hvv2 : o2'.vars.getD q.2 0 = op.vars[r] := by
+        rw [hv2', ← hv2]; simp [List.getD, List.getElem?_eq_getElem hr2]
+      unfold partnerOf
+      simp only [moveOn, Bool.not_true, Bool.false_eq_true, if_false, hvv2]
+      cases hprev : prevForVar slots op.vars[r] q.1 with
+      | none =>
+        exact absurd htouch (prevForVar_none hprev pos op (Nat.zero_le _) hlt hop)
+      | some x =>
+        obtain ⟨x1, x2⟩ := x
+        obtain ⟨hx1, ⟨o3, ho3, hi3⟩, hfree3⟩ := prevForVar_some hprev
+        have hle1 : x1 ≤ pos := by
+          by_contra hc
+          exact hfree x1 o3 (by omega) hx1 ho3 ((indexOfVar_some hi3).2 ▸ List.getElem_mem _)
+        have hle2 : pos ≤ x1 := by
+          by_contra hc
+          exact hfree3 pos op (by omega) hlt hop htouch
+        have : x1 = pos := by omega
+        subst this
+        rw [hop] at ho3
+        injection ho3 with ho3; injection ho3 with ho3; subst ho3
+        have := indexOfVar_unique hi3 hidx
+        subst this
+        rfl
+    · -- forward through the boundary
+      rename_i hq
+      have hfb := nextForVar_none hq
+      cases hf : firstForVar slots op.vars[r] with
+      | none => rw [hf] at h; simp at h
+      | some q =>
+        rw [hf] at h
+        simp only [Option.map_some, Option.some.injEq, Prod.mk.injEq] at h
+        obtain ⟨e1, e2⟩ := h
+        obtain ⟨⟨o2, ho2, hi2⟩, hfa⟩ := firstForVar_some hf
+        obtain ⟨hr2, hv2⟩ := indexOfVar_some hi2
+        subst e1; subst e2
+        refine ⟨o2, ho2, hr2, rfl, fun o2' hv2' => ?_⟩
+        have hvv2 : o2'.vars.getD q.2 0 = op.vars[r] := by
+          rw [hv2', ← hv2]; simp [List.getD, List.getElem?_eq_getElem hr2]
+        unfold partnerOf
+        simp only [moveOn, Bool.not_true, Bool.false_eq_true, if_false, hvv2]
+        cases hprev : prevForVar slots op.vars[r] q.1 with
+        | some x =>
+          obtain ⟨x1, x2⟩ := x
+          obtain ⟨hx1, ⟨o3, ho3, hi3⟩, _⟩ := prevForVar_some hprev
+          exact absurd ((indexOfVar_some hi3).2 ▸ List.getElem_mem _)
+            (hfa x1 o3 (Nat.zero_le _) hx1 ho3)
+        | none =>
+          simp only
+          cases hlast : lastForVar slots op.vars[r] with
+          | none =>
+            obtain ⟨r0, hr0⟩ := occV_of_touch slots op.vars[r] pos op hop htouch
+            unfold lastForVar at hlast
+            rw [List.getLast?_eq_none_iff] at hlast
+            rw [hlast] at hr0; simp at hr0
+          | some x =>
+            obtain ⟨x1, x2⟩ := x
+            obtain ⟨⟨o3, ho3, hi3⟩, hfree3⟩ := lastForVar_some hlast
+            have hl3 : x1 < slots.length := (List.getElem?_eq_some_iff.mp ho3).1
+            have hle1 : x1 ≤ pos := by
+              by_contra hc
+              exact hfb x1 o3 (by omega) hl3 ho3 ((indexOfVar_some hi3).2 ▸ List.getElem_mem _)
+            have hle2 : pos ≤ x1 := by
+              by_contra hc
+              exact hfree3 pos op (by omega) hl hop htouch
+            have : x1 = pos := by omega
+            subst this
+            rw [hop] at ho3
+            injection ho3 with ho3; injection ho3 with ho3; subst ho3
+            have := indexOfVar_unique hi3 hidx
+            subst this
+            rfl
+  | false =>
+    simp only [moveOn, Bool.false_eq_true, if_false, hvv] at h
+    split at h
+    · -- backward inner link
+      rename_i q hq
+      simp only [Option.map_some, Option.some.injEq, Prod.mk.injEq] at h
+      obtain ⟨e1, e2⟩ := h
+      obtain ⟨hlt, ⟨o2, ho2, hi2⟩, hfree⟩ := prevForVar_some hq
+      obtain ⟨hr2, hv2⟩ := indexOfVar_some hi2
+      subst e1; subst e2
+      refine ⟨o2, ho2, hr2, rfl, fun o2' hv2' => ?_⟩
+      have hvv2 : o2'.vars.getD q.2 0 = op.vars[r] := by
+        rw [hv2', ← hv2]; simp [List.getD, List.getElem?_eq_getElem hr2]
+      have hl2 : q.1 < slots.length := (List.getElem?_eq_some_iff.mp ho2).1
+      unfold partnerOf
+      simp only [moveOn, Bool.not_false, if_true, hvv2]
+      cases hnext : nextForVar slots op.vars[r] q.1 with
+      | none =>
+        exact absurd htouch (nextForVar_none hnext pos op (by omega) hl hop)
+      | some x =>
+        obtain ⟨x1, x2⟩ := x
+        obtain ⟨hx1, ⟨o3, ho3, hi3⟩, hfree3⟩ := nextForVar_some hnext
+        have hle1 : pos ≤ x1 := by
+          by_contra hc
+          exact hfree x1 o3 (by omega) (by omega) ho3 ((indexOfVar_some hi3).2 ▸ List.getElem_mem _)
+        have hle2 : x1 ≤ pos := by
+          by_contra hc
+          exact hfree3 pos op (by omega) (by omega) hop htouch
+        have : x1 = pos := by omega
+        subst this
+        rw [hop] at ho3
+        injection ho3 with ho3; injection ho3 with ho3; subst ho3
+        have := indexOfVar_unique hi3 hidx
+        subst this
+        rfl
+    · -- backward through the boundary
+      rename_i hq
+      have hfa := prevForVar_none hq
+      cases hf : lastForVar slots op.vars[r] with
+      | none => rw [hf] at h; simp at h
+      | some q =>
+        rw [hf] at h
+        simp only [Option.map_some, Option.some.injEq, Prod.mk.injEq] at h
+        obtain ⟨e1, e2⟩ := h
+        obtain ⟨⟨o2, ho2, hi2⟩, hfb⟩ := lastForVar_some hf
+        obtain ⟨hr2, hv2⟩ := indexOfVar_some hi2
+        subst e1; subst e2
+        refine ⟨o2, ho2, hr2, rfl, fun o2' hv2' => ?_⟩
+        have hvv2 : o2'.vars.getD q.2 0 = op.vars[r] := by
+          rw [hv2', ← hv2]; simp [List.getD, List.getElem?_eq_getElem hr2]
+        unfold partnerOf
+        simp only [moveOn, Bool.not_false, if_true, hvv2]
+        cases hnext : nextForVar slots op.vars[r] q.1 with
+        | some x =>
+          obtain ⟨x1, x2⟩ := x
+          obtain ⟨hx1, ⟨o3, ho3, hi3⟩, _⟩ := nextForVar_some hnext
+          have hl3 : x1 < slots.length := (List.getElem?_eq_some_iff.mp ho3).1
+          exact absurd ((indexOfVar_some hi3).2 ▸ List.getElem_mem _)
+            (hfb x1 o3 (by omega) hl3 ho3)
+        | none =>
+          simp only
+          cases hfirst : firstForVar slots op.vars[r] with
+          | none =>
+            obtain ⟨r0, hr0⟩ := occV_of_touch slots op.vars[r] pos op hop htouch
+            unfold firstForVar at hfirst
+            rw [List.head?_eq_none_iff] at hfirst
+            rw [hfirst] at hr0; simp at hr0
+          | some x =>
+            obtain ⟨x1, x2⟩ := x
+            obtain ⟨⟨o3, ho3, hi3⟩, hfree3⟩ := firstForVar_some hfirst
+            have hle1 : pos ≤ x1 := by
+              by_contra hc
+              exact hfa x1 o3 (Nat.zero_le _) (by omega) ho3 ((indexOfVar_some hi3).2 ▸ List.getElem_mem _)
+            have hle2 : x1 ≤ pos := by
+              by_contra hc
+              exact hfree3 pos op (Nat.zero_le _) (by omega) hop htouch
+            have : x1 = pos := by omega
+            subst this
+            rw [hop] at ho3
+            injection ho3 with ho3; injection ho3 with ho3; subst ho3
+            have := indexOfVar_unique hi3 hidx
+            subst this
+            rfl
+
+/-! ### retracing a closed loop backwards is a closed loop -/
+
+/-- consecutive elements are related -/
+def linkedList {α} (R : α → α → Prop) : List α → Prop
+  | [] => True
+  | [_] => True
+  | a :: b :: t => R a b ∧ linkedList R (b :: t)
+
+theorem linkedList_snoc {α} (R : α → α → Prop) (l : List α) (x : α) :
+    linkedList R (l ++ [x]) ↔ linkedList R l ∧ ∀ y, l.getLast? = some y → R y x := by
+  induction l with
+  | nil => simp [linkedList]
+  | cons a t ih =>
+    cases t with
+    | nil => simp [linkedList]
+    | cons b t' =>
+      simp only [List.cons_append, linkedList] at ih ⊢
+      rw [ih]
+      simp only [List.getLast?_cons_cons]
+      constructor
+      · rintro ⟨h1, h2, h3⟩; exact ⟨⟨h1, h2⟩, h3⟩
+      · rintro ⟨⟨h1, h2⟩, h3⟩; exact ⟨h1, h2, h3⟩
+
+theorem linkedList_reverse {α} (R R' : α → α → Prop) (f : α → α) (l : List α)
+    (h : ∀ a b, a ∈ l → b ∈ l → R a b → R' (f b) (f a)) (hl : linkedList R l) :
+    linkedList R' (l.map f).reverse := by
+  induction l with
+  | nil => simp [linkedList]
+  | cons a t ih =>
+    simp only [List.map_cons, List.reverse_cons]
+    rw [linkedList_snoc]
+    cases t with
+    | nil => simp [linkedList]
+    | cons b t' =>
+      simp only [linkedList] at hl
+      refine ⟨ih (fun x y hx hy => h x y (List.mem_cons_of_mem _ hx) (List.mem_cons_of_mem _ hy)) hl.2, ?_⟩
+      intro y hy
+      simp only [List.map_cons, List.reverse_cons, List.getLast?_append, List.getLast?_singleton,
+        Option.some_or, Option.some.injEq] at hy
+      subst hy
+      exact h a b (List.mem_cons_self ..) (List.mem_cons_of_mem _ (List.mem_cons_self ..)) hl.1
+
+/-- every element but the first has a predecessor, which is not the last element -/
+theorem linkedList_pred {α} (R : α → α → Prop) (l : List α) (hl : linkedList R l) :
+    ∀ b ∈ l.tail, ∃ a ∈ l.dropLast, R a b := by
+  induction l with
+  | nil => intro b hb; simp at hb
+  | cons a t ih =>
+    cases t with
+    | nil => intro b hb; simp at hb
+    | cons c t' =>
+      simp only [linkedList] at hl
+      intro b hb
+      simp only [List.tail_cons, List.mem_cons] at hb
+      rcases hb with rfl | hb
+      · exact ⟨a, by simp [List.dropLast], hl.1⟩
+      · obtain ⟨x, hx, hr⟩ := ih hl.2 b (by simpa using hb)
+        exact ⟨x, by simp only [List.dropLast_cons_cons]; exact List.mem_cons_of_mem _ hx, hr⟩
+
+/-- the visit as the walk that retraces the loop sees it: the rewritten op, entered through the
+old exit, left through the old entrance -/
+def Visit.rev (v : Visit) : Visit := ⟨v.pos, v.ex, v.ent, v.after⟩
+
+theorem Visit.rev_after_vars (v : Visit) : v.rev.after.vars = v.op.vars := by
+  simp [Visit.rev, Visit.after, passThrough, Op.withInOut]
+
+theorem Visit.after_vars (v : Visit) : v.after.vars = v.op.vars := by
+  simp [Visit.after, passThrough, Op.withInOut]
+
+/-- the visit fits the skeleton: an op with these (distinct) variables sits at `pos`, both legs exist -/
+def WV (slots : Slots) (v : Visit) : Prop :=
+  ∃ op0, slots[v.pos]? = some (some op0) ∧ v.op.vars = op0.vars ∧ op0.vars.Nodup ∧
+    v.ent.rel < op0.vars.length ∧ v.ex.rel < op0.vars.length
+
+theorem partnerOf_vars_congr (slots : Slots) (pos : Nat) (o1 o2 : Op) (ex : Leg)
+    (h : o1.vars = o2.vars) : partnerOf slots pos o1 ex = partnerOf slots pos o2 ex := by
+  unfold partnerOf moveOn
+  simp only [h]
+  split <;> split <;> rfl
+
+/-- a closed loop on a skeleton: visits that fit, consecutive ones linked, the first enters
+`init`, the last closes, none before the last closes -/
+structure IsLoop (slots : Slots) (init : Nat × Leg) (tr : List Visit) : Prop where
+  wv : ∀ v ∈ tr, WV slots v
+  linked : linkedList (Linked slots) tr
+  first : ∃ v, tr.head? = some v ∧ (v.pos, v.ent) = init
+  closes : ∃ v, tr.getLast? = some v ∧ Closes slots init v
+  open_ : ∀ v ∈ tr.dropLast, ¬ Closes slots init v
+
+/-- symmetry of one link between two fitting visits -/
+theorem linked_symm {slots : Slots} {a b : Visit} (ha : WV slots a) (hb : WV slots b)
+    (h : Linked slots a b) : partnerOf slots b.pos b.rev.after b.ent = some (a.pos, a.ex) := by
+  obtain ⟨oa, hoa, hva, hna, _, hxa⟩ := ha
+  obtain ⟨ob, hob, hvb, _, _, _⟩ := hb
+  unfold Linked at h
+  obtain ⟨o2, ho2, _, _, hback⟩ :=
+    partnerOf_symm hoa (by rw [Visit.after_vars, hva]) hna hxa h
+  rw [hob] at ho2
+  injection ho2 with ho2; injection ho2 with ho2; subst ho2
+  exact hback _ (by rw [Visit.rev_after_vars, hvb])
+
+/-- **Retracing a closed loop backwards is a closed loop**, started at the exit leg of the last
+visit. -/
+theorem IsLoop.reverse {slots : Slots} {init : Nat × Leg} {tr : List Visit}
+    (h : IsLoop slots init tr) :
+    ∃ vm, tr.getLast? = some vm ∧ IsLoop slots (vm.pos, vm.ex) (tr.map Visit.rev).reverse := by
+  obtain ⟨vm, hlast, hclose⟩ := h.closes
+  obtain ⟨v1, hfirst, hinit⟩ := h.first
+  have hvm_mem : vm ∈ tr := List.mem_of_getLast? hlast
+  have hv1_mem : v1 ∈ tr := List.mem_of_head? hfirst
+  have hwvm := h.wv vm hvm_mem
+  have hwv1 := h.wv v1 hv1_mem
+  -- the link from the last exit back to the start, when the loop closed by arriving
+  have hB : partnerOf slots vm.pos vm.after vm.ex = some init →
+      partnerOf slots v1.pos v1.rev.after v1.ent = some (vm.pos, vm.ex) := by
+    intro hp
+    obtain ⟨om, hom, hvm, hnm, _, hxm⟩ := hwvm
+    obtain ⟨o1, ho1, hv1, _, _, _⟩ := hwv1
+    rw [← hinit] at hp
+    obtain ⟨o2, ho2, _, _, hback⟩ :=
+      partnerOf_symm hom (by rw [Visit.after_vars, hvm]) hnm hxm hp
+    rw [ho1] at ho2
+    injection ho2 with ho2; injection ho2 with ho2; subst ho2
+    exact hback _ (by rw [Visit.rev_after_vars, hv1])
+  refine ⟨vm, hlast, ?_, ?_, ?_, ?_, ?_⟩
+  · -- fits
+    intro v hv
+    simp only [List.mem_reverse, List.mem_map] at hv
+    obtain ⟨u, hu, rfl⟩ := hv
+    obtain ⟨o, ho, hvo, hn, he, hx⟩ := h.wv u hu
+    exact ⟨o, ho, by rw [← hvo]; exact Visit.after_vars u, hn, hx, he⟩
+  · -- linked
+    apply linkedList_reverse (Linked slots) (Linked slots) Visit.rev tr _ h.linked
+    intro a b ha hb hab
+    exact linked_symm (h.wv a ha) (h.wv b hb) hab
+  · -- starts at the exit leg of the last visit
+    refine ⟨vm.rev, ?_, rfl⟩
+    rw [List.head?_reverse, List.getLast?_map, hlast]; rfl
+  · -- the last visit of the retraced loop is the first visit, leaving through the start leg
+    refine ⟨v1.rev, ?_, ?_⟩
+    · rw [List.getLast?_reverse, List.head?_map, hfirst]; rfl
+    · rcases hclose with hA | hB'
+      · left
+        show (v1.pos, v1.ent) = (vm.pos, vm.ex)
+        rw [hinit, hA]
+      · right
+        exact hB hB'
+  · -- no earlier visit of the retraced loop closes
+    intro v hv
+    have hv' : ∃ b ∈ tr.tail, v = b.rev := by
+      cases tr with
+      | nil => simp at hv
+      | cons a t =>
+        simp only [List.map_cons, List.reverse_cons, List.dropLast_concat, List.mem_reverse,
+          List.mem_map] at hv
+        obtain ⟨b, hb, rfl⟩ := hv
+        exact ⟨b, by simpa using hb, rfl⟩
+    obtain ⟨b, hbt, rfl⟩ := hv'
+    obtain ⟨a, had, hab⟩ := linkedList_pred (Linked slots) tr h.linked b hbt
+    have hb_mem : b ∈ tr := List.mem_of_mem_tail hbt
+    have ha_mem : a ∈ tr := (List.dropLast_sublist tr).subset had
+    have hnc := h.open_ a had
+    have hback := linked_symm (h.wv a ha_mem) (h.wv b hb_mem) hab
+    have hab' : partnerOf slots a.pos a.after a.ex = some (b.pos, b.ent) := hab
+    intro hc
+    rcases hc with hc | hc
+    · -- the retraced visit would leave through the new start leg
+      have hc' : (b.pos, b.ent) = (vm.pos, vm.ex) := hc
+      rcases hclose with hA | hB'
+      · exact hnc (Or.inr (by rw [hab', hc', hA]))
+      · -- the link of the last exit leads to `init`, but also back to `a`'s exit
+        obtain ⟨om, hom, hvm, hnm, _, hxm⟩ := hwvm
+        obtain ⟨oa, hoa, hva, hna, _, hxa⟩ := h.wv a ha_mem
+        obtain ⟨o2, ho2, _, _, hback2⟩ :=
+          partnerOf_symm hoa (by rw [Visit.after_vars, hva]) hna hxa hab'
+        have hpe : b.pos = vm.pos ∧ b.ent = vm.ex := by
+          injection hc' with h1 h2; exact ⟨h1, h2⟩
+        rw [hpe.1] at ho2 hback2
+        rw [hpe.2] at hback2
+        rw [hom] at ho2
+        injection ho2 with ho2; injection ho2 with ho2; subst ho2
+        have := hback2 vm.after (by rw [Visit.after_vars, hvm])
+        rw [hB'] at this
+        injection this with this
+        exact hnc (Or.inl this.symm)
+    · -- the retraced visit would arrive at the new start leg
+      have hc' : partnerOf slots b.pos b.rev.after b.ent = some (vm.pos, vm.ex) := hc
+      rw [hback] at hc'
+      injection hc' with hc'
+      rcases hclose with hA | hB'
+      · exact hnc (Or.inl (by rw [hc', hA]))
+      · have hpe : a.pos = vm.pos ∧ a.ex = vm.ex := by
+          injection hc' with h1 h2; exact ⟨h1, h2⟩
+        obtain ⟨om, hom, hvm, _, _, _⟩ := hwvm
+        obtain ⟨oa, hoa, hva, _, _, _⟩ := h.wv a ha_mem
+        rw [hpe.1, hom] at hoa
+        injection hoa with hoa; injection hoa with hoa; subst hoa
+        have hcong := partnerOf_vars_congr slots vm.pos a.after vm.after vm.ex
+          (by rw [Visit.after_vars, Visit.after_vars, hva, hvm])
+        refine hnc (Or.inr ?_)
+        rw [hpe.1, hpe.2, hcong, hB']
+
+theorem skeleton_op {s1 s2 : Slots} (h : skeletonOf s1 = skeletonOf s2) {p : Nat} {o1 : Op}
+    (h1 : s1[p]? = some (some o1)) : ∃ o2, s2[p]? = some (some o2) ∧ o2.vars = o1.vars := by
+  have := skeleton_getElem? h p
+  rw [h1] at this
+  cases h2 : s2[p]? with
+  | none => rw [h2] at this; simp at this
+  | some y =>
+    rw [h2] at this
+    cases y with
+    | none => simp at this
+    | some o2 =>
+      simp only [Option.map_some, Option.some.injEq, Prod.mk.injEq] at this
+      exact ⟨o2, rfl, this.1.symm⟩
+
+/-- **the trace of a closed run is a closed loop** on the skeleton -/
+theorem loopTrace_isLoop (w : Nat → List Bool → List Bool → Rat) (init : Nat × Leg) (sk : Slots)
+    (hnd : ∀ o, some o ∈ sk → o.vars.Nodup) (fuel pos : Nat) (ent : Leg) (s : LoopSt)
+    (hsk : skeletonOf s.slots = skeletonOf sk) (hh : HeadOK sk pos ent)
+    (h1 : (loopIter w init fuel pos ent s).rs.panicked = false)
+    (h2 : (loopIter w init fuel pos ent s).rs.short = false) :
+    (∀ v ∈ loopTrace w init fuel pos ent s, WV sk v) ∧
+    linkedList (Linked sk) (loopTrace w init fuel pos ent s) ∧
+    (∃ v, (loopTrace w init fuel pos ent s).head? = some v ∧ (v.pos, v.ent) = (pos, ent)) ∧
+    (∃ v, (loopTrace w init fuel pos ent s).getLast? = some v ∧ Closes sk init v) ∧
+    (∀ v ∈ (loopTrace w init fuel pos ent s).dropLast, ¬ Closes sk init v) := by
+  induction fuel generalizing pos ent s with
+  | zero => simp [loopIter] at h2
+  | succ f ih =>
+    have hsk' : skeletonOf (loopBody w init pos ent s).1.slots = skeletonOf sk := by
+      rw [loopBody_skeleton]; exact hsk
+    have hhead := loopBody_head w init pos ent s
+    unfold loopIter at h1 h2
+    unfold loopTrace
+    rcases loopBody_cases' w init pos ent s with ⟨hn, hfl⟩ | ⟨op, ex, hex, hcase⟩
+    · exfalso
+      rcases heq : loopBody w init pos ent s with ⟨s', _ | ⟨p, e⟩⟩
+      · rw [heq] at hfl h1 h2
+        simp only at hfl h1 h2
+        rcases hfl with h | h
+        · rw [h1] at h; cases h
+        · rw [h2] at h; cases h
+      · rw [heq] at hn; cases hn
+    · have hv : visitHere w pos ent s = [⟨pos, ent, ex, op⟩] := by unfold visitHere; rw [hex]
+      obtain ⟨hop, hxr, _⟩ := exitOf_some hex
+      have hwv : WV sk ⟨pos, ent, ex, op⟩ := by
+        obtain ⟨o0, ho0, hv0⟩ := skeleton_op hsk hop
+        obtain ⟨o0', ho0', her⟩ := hh
+        rw [ho0] at ho0'
+        injection ho0' with e; injection e with e; subst e
+        exact ⟨o0, ho0, hv0.symm, hnd o0 (List.mem_of_getElem? ho0), her, by rw [hv0]; exact hxr⟩
+      rcases hcase with ⟨hinit, hnone⟩ | ⟨hinit, st', p', r', hmv, hfin⟩
+      · rcases heq : loopBody w init pos ent s with ⟨s', _ | ⟨p, e⟩⟩
+        · simp only [hv]
+          refine ⟨?_, trivial, ⟨_, rfl, rfl⟩, ⟨_, rfl, Or.inl hinit⟩, ?_⟩
+          · intro v hv'; simp only [List.mem_singleton] at hv'; subst hv'; exact hwv
+          · intro v hv'; simp at hv'
+        · rw [heq] at hnone; cases hnone
+      · have hpart := partnerOf_of_moveOn (slots := sk) hsk hmv
+        rcases hfin with ⟨hhd, hnone⟩ | ⟨hhd, hsome⟩
+        · rcases heq : loopBody w init pos ent s with ⟨s', _ | ⟨p, e⟩⟩
+          · simp only [hv]
+            refine ⟨?_, trivial, ⟨_, rfl, rfl⟩, ⟨_, rfl, Or.inr (by rw [← hhd]; exact hpart)⟩, ?_⟩
+            · intro v hv'; simp only [List.mem_singleton] at hv'; subst hv'; exact hwv
+            · intro v hv'; simp at hv'
+          · rw [heq] at hnone; cases hnone
+        · rcases heq : loopBody w init pos ent s with ⟨s', _ | ⟨p, e⟩⟩
+          · rw [heq] at hsome; cases hsome
+          · rw [heq] at hsome hsk' hhead h1 h2
+            simp only at hsome hsk' hhead h1 h2 ⊢
+            injection hsome with hsome; injection hsome with e1 e2
+            subst e1; subst e2
+            have hh' : HeadOK sk p ⟨r', !ex.out⟩ := headOK_skeleton hsk' (hhead _ _ rfl)
+            obtain ⟨i1, i2, ⟨u, hu, hue⟩, ⟨z, hz, hzc⟩, i5⟩ := ih p ⟨r', !ex.out⟩ s' hsk' hh' h1 h2
+            rw [hv]
+            -- the rest of the trace is non-empty, starting with `u`
+            obtain ⟨rest, hrest⟩ : ∃ rest, loopTrace w init f p ⟨r', !ex.out⟩ s' = u :: rest := by
+              cases hl : loopTrace w init f p ⟨r', !ex.out⟩ s' with
+              | nil => rw [hl] at hu; simp at hu
+              | cons a t => rw [hl] at hu; simp at hu; exact ⟨t, by rw [hu]⟩
+            rw [hrest] at i1 i2 hz i5 ⊢
+            have hnc : ¬ Closes sk init ⟨pos, ent, ex, op⟩ := by
+              rintro (hc | hc)
+              · exact hinit hc
+              · have hc' : partnerOf sk pos (passThrough op ent ex) ex = some init := hc
+                rw [hpart] at hc'
+                injection hc' with hc'
+                exact hhd hc'
+            refine ⟨?_, ?_, ⟨_, rfl, rfl⟩, ⟨z, ?_, hzc⟩, ?_⟩
+            · intro v hv'
+              simp only [List.singleton_append, List.mem_cons] at hv'
+              rcases hv' with rfl | hv'
+              · exact hwv
+              · exact i1 v (by simpa using hv')
+            · simp only [List.singleton_append, linkedList]
+              refine ⟨?_, i2⟩
+              show partnerOf sk pos (passThrough op ent ex) ex = some (u.pos, u.ent)
+              rw [hpart, hue]
+            · simpa using hz
+            · intro v hv'
+              simp only [List.singleton_append, List.dropLast_cons_cons, List.mem_cons] at hv'
+              rcases hv' with rfl | hv'
+              · exact hnc
+              · exact i5 v hv'
+
+
+theorem pathProb_append (w : Nat → List Bool → List Bool → Rat) (a b : List Visit) :
+    pathProb w (a ++ b) = pathProb w a * pathProb w b := by
+  induction a with
+  | nil => simp [pathProb]
+  | cons v t ih => simp only [List.cons_append, pathProb, ih]; ring
+
+/-- the forward probability of the retraced loop is the reverse probability of the loop -/
+theorem pathProb_rev (w : Nat → List Bool → List Bool → Rat) (tr : List Visit) :
+    pathProb w (tr.map Visit.rev).reverse = pathProbRev w tr := by
+  induction tr with
+  | nil => rfl
+  | cons v t ih =>
+    simp only [List.map_cons, List.reverse_cons, pathProb_append, pathProb, pathProbRev, ih, mul_one]
+    have h1 := passThrough_io v.op v.ent v.ex
+    have h2 := passThrough_fields v.op v.ent v.ex
+    have : exitProb (w v.rev.op.bond) (v.rev.op.ins, v.rev.op.outs) v.rev.ent v.rev.ex v.rev.op.vars.length
+        = exitProb (w v.op.bond) (flipIO (flipIO (v.op.ins, v.op.outs) v.ent) v.ex) v.ex v.ent
+            v.op.vars.length := by
+      show exitProb (w (passThrough v.op v.ent v.ex).bond)
+        ((passThrough v.op v.ent v.ex).ins, (passThrough v.op v.ent v.ex).outs) v.ex v.ent
+        (passThrough v.op v.ent v.ex).vars.length = _
+      rw [h1, h2.1, h2.2.1]
+    rw [this]; ring
+
 end Qmc.LoopC
